@@ -222,6 +222,7 @@ func nameObligations(res *FuncResult) {
 	for i, o := range res.Obls {
 		o.Index = i
 		base := o.Name
+		o.Labeled = base != ""
 		if base == "" {
 			prop := "C13"
 			if len(o.Props) > 0 {
